@@ -32,7 +32,7 @@ pub fn gen_scenario(rng: &mut Rng, with_eval: bool) -> Scenario {
     // mostly small sets; one in eight is large enough that different split trees of the
     // parallel batch map contain leaves of three or more samples
     // very wide layers are expensive per sample: keep their data sets moderate
-    let very_wide = net.shapes().map(|v| v.iter().any(|s| s.count() >= 1000)).unwrap_or(false);
+    let very_wide = very_wide(&net);
     let n = if scale() && very_wide {
         rng.range(17, 40)
     } else if scale() {
@@ -57,7 +57,7 @@ pub fn gen_scenario(rng: &mut Rng, with_eval: bool) -> Scenario {
             }
         }
     };
-    let epochs = if scale() { rng.range(3, 12) as i32 } else { rng.range(1, 3) as i32 };
+    let epochs = if scale() && !very_wide { rng.range(3, 12) as i32 } else { rng.range(1, 3) as i32 };
     let train = gen_data(rng, &net, n);
     let eval_size = |rng: &mut Rng| if very_wide { rng.range(60, 130) } else { eval_size(rng) };
     let val = if with_eval && rng.chance(0.5) {
@@ -141,7 +141,7 @@ impl Property for C05 {
     fn runs(&self, tier: Tier) -> u64 {
         match tier {
             Tier::Quick => 8000,
-            Tier::Thorough => 400000,
+            Tier::Thorough => 100000,
         }
     }
 
